@@ -6,6 +6,7 @@ import (
 	"context"
 	"fmt"
 	"sort"
+	"time"
 
 	extv1 "k8s.io/apiextensions-apiserver/pkg/apis/apiextensions/v1"
 	kruntime "k8s.io/apimachinery/pkg/runtime"
@@ -133,6 +134,15 @@ func (w *World) ReconcileActions() []sim.Action {
 	return out
 }
 
+// SleeperActions offers a clock advance with a high weight while some live
+// task is not parked at a seam (it sleeps on a timer).
+func (w *World) SleeperActions() []sim.Action {
+	if w.S.LiveTasks() > len(w.S.Pending()) {
+		return []sim.Action{{Key: "advance 1s (tasks sleeping)", Weight: 20, Run: func() { w.S.Advance(time.Second) }}}
+	}
+	return nil
+}
+
 // InFlight is the number of reconciles in flight.
 func (w *World) InFlight() int {
 	n := 0
@@ -151,7 +161,12 @@ func (w *World) Drain(maxSteps int) bool {
 		}
 		if !w.S.StepOnce(nil, 1) {
 			w.S.Wait()
-			return w.S.LiveTasks() == 0
+			if w.S.LiveTasks() == 0 {
+				return true
+			}
+			// live tasks, none parked at a seam: they sleep (a retry backoff, a
+			// delayed replay); let the clock fire their timers
+			w.S.Advance(time.Second)
 		}
 	}
 	return false
